@@ -51,9 +51,9 @@ type Conn struct {
 	closed atomic.Bool
 	peer   *Conn
 
-	// Inject, if set, is consulted at the start of every Read/Write with the 0-based operation
+	// inject, if set, is consulted at the start of every Read/Write with the 0-based operation
 	// index on this connection end.
-	Inject func(op string, index int) *Fault
+	inject atomic.Pointer[func(op string, index int) *Fault]
 	ops    atomic.Int64
 
 	BytesRead    atomic.Int64
@@ -93,14 +93,23 @@ func opErr(op string, err error) error {
 	return &net.OpError{Op: op, Net: "mem", Err: err}
 }
 
+// SetInject installs (nil removes) the fault injector of this end.
+func (c *Conn) SetInject(f func(op string, index int) *Fault) {
+	if f == nil {
+		c.inject.Store(nil)
+		return
+	}
+	c.inject.Store(&f)
+}
+
 // Ops returns the number of Read/Write operations started on this end.
 func (c *Conn) Ops() int { return int(c.ops.Load()) }
 
 func (c *Conn) Read(p []byte) (int, error) {
 	idx := int(c.ops.Add(1) - 1)
 	c.ReadCalls.Add(1)
-	if c.Inject != nil {
-		if f := c.Inject("read", idx); f != nil {
+	if inj := c.inject.Load(); inj != nil {
+		if f := (*inj)("read", idx); f != nil {
 			if f.CloseAfter {
 				defer c.Close()
 			}
@@ -137,8 +146,8 @@ func (c *Conn) Write(p []byte) (int, error) {
 	idx := int(c.ops.Add(1) - 1)
 	limit := -1
 	var ferr error
-	if c.Inject != nil {
-		if f := c.Inject("write", idx); f != nil {
+	if inj := c.inject.Load(); inj != nil {
+		if f := (*inj)("write", idx); f != nil {
 			if f.CloseAfter {
 				defer c.Close()
 			}
